@@ -71,6 +71,14 @@ def gen(tier, seed):
                 m = rnd.randint(1, n - 1)
                 case["nodes"] = fsl(sorted({a + (b - a) * F(i, m + 1) for i in range(1, m + 1)}))
                 case["Z"] = pts_json(rand_points(rnd, m, dim))
+            if case["nodes"] is not None and mode in ("exact", "over", "inspace") and rnd.random() < 0.5:
+                # nodes in arbitrary order (with their points): the fit must not depend on the order
+                idx = list(range(len(case["nodes"])))
+                rnd.shuffle(idx)
+                case["nodes"] = [case["nodes"][i] for i in idx]
+                if case["Z"] is not None:
+                    case["Z"] = [case["Z"][i] for i in idx]
+                case["shuffled"] = True
             cases.append(case)
     return cases
 
